@@ -16,7 +16,7 @@ from falcon import errors  # noqa: E402
 from falcon.response import Response, ResponseOptions  # noqa: E402
 
 from engine.envmodels import make_environ, make_scope  # noqa: E402
-from engine.rt import fail, run_coro  # noqa: E402
+from engine.rt import pick, fail, run_coro  # noqa: E402
 from harness.c07 import FakeInput  # noqa: E402
 
 PROPERTY = 'C12'
@@ -155,6 +155,38 @@ def reassign_case(asgi, shape, n, early, how, form):
     back = _get(req, asgi)
     if back != final:
         return fail(lambda: 'media assigned last %r (early render %r, re-assignment kind %d) is sent as %r' % (final, early, how, body))
+    return 1
+
+
+ENC_DOCS = ['1', '"a"', '[]', '{"k": [true, null]}', '"\u00e9"']
+ENC_NAMES = ['utf-8', 'utf-16-le', 'utf-16-be', 'utf-32-le', 'utf-32-be', 'latin-1']
+ENC_BOMS = [b'', b'\xef\xbb\xbf', b'\xff\xfe', b'\xfe\xff', b'\xff\xfe\x00\x00', b'\x00\x00\xfe\xff']
+
+
+def encoding_case(asgi, di, ei, bi):
+    """A JSON text in an encoding / with a byte-order mark: request media is UTF-8 (RFC 8259, no BOM); everything else is an
+    undecodable / malformed body -> the 400-class malformed-media error, never a parsed document and never a server error."""
+    import json as _json
+    text = ENC_DOCS[di]
+    body = ENC_BOMS[bi] + text.encode(ENC_NAMES[ei])
+    good = None
+    try:
+        good = _json.loads(body.decode('utf-8'))
+        ok = True
+    except ValueError:
+        ok = False
+    req, src = (asgi_req(body, falcon.MEDIA_JSON) if asgi else wsgi_req(body, falcon.MEDIA_JSON))
+    try:
+        got = ('ok', _get(req, asgi))
+    except falcon.MediaMalformedError:
+        got = ('malformed',)
+    except falcon.HTTPError as e:
+        got = ('http', e.status_code)
+    if ok and got != ('ok', good):
+        return fail(lambda: 'body %r (valid UTF-8 JSON %r): %r' % (body, good, got))
+    if not ok and got != ('malformed',):
+        return fail(lambda: 'body %r (%s%s, not a UTF-8 JSON text) -> %r, expected the malformed-media error' % (
+            body, ENC_NAMES[ei], ' with a BOM' if bi else '', got))
     return 1
 
 
@@ -299,6 +331,11 @@ def partitions(tier, seed):
                        'reassign_case(%d, 3 if dict_shape else 2, n, early, how, form)' % asgi, 200,
                        'resp.media assigned, optionally rendered early, then assigned again (same object mutated in place / equal copy / '
                        'other document); JSON list or dict, URL-encoded dict: the final body is the last assignment'))
+        P.append(_part('encodings_%s' % tag, 'di: int, ei: int, bi: int',
+                       ['0 <= di < %d' % len(ENC_DOCS), '0 <= ei < %d' % len(ENC_NAMES), '0 <= bi < %d' % len(ENC_BOMS)],
+                       'encoding_case(%d, pick(di, 0, %d), pick(ei, 0, %d), pick(bi, 0, %d))' % (asgi, len(ENC_DOCS) - 1, len(ENC_NAMES) - 1, len(ENC_BOMS) - 1),
+                       200, 'JSON request body = one of %d documents encoded as %r behind one of %d byte-order marks (finite table chosen by the '
+                       'solver): parsed iff it is a UTF-8 JSON text, the malformed-media 400 otherwise' % (len(ENC_DOCS), ENC_NAMES, len(ENC_BOMS))))
         P.append(_part('form_%s' % tag, 'k1: int, v1: str, v2: str', ['0 <= k1 <= 2', 'len(v1) <= 1 and len(v2) <= 1', 'all(ord(c) < 128 for c in v1 + v2)' if q else 'True'],
                        'form_case(%d, k1, v1, v2)' % asgi, 250 if q else 900, 'URL-encoded form round trip: key from a menu, two values of <= 1 free character'))
     return P
